@@ -1255,6 +1255,15 @@ func (fr *frame) load(path string, t types.Type) Val {
 	if v, ok := in.heap[path]; ok {
 		res = join(res, v)
 	}
+	// a store of a whole aggregate (struct, array) to an enclosing cell also
+	// defines this component; aggregates are not modelled, so it is unknown
+	for i := len(path) - 1; i > 0; i-- {
+		if path[i] == '.' || path[i] == '[' {
+			if _, ok := in.heap[path[:i]]; ok && strings.Contains(path[:i], "#") {
+				res = join(res, top)
+			}
+		}
+	}
 	// a store through an unknown index may alias any constant index
 	if i := strings.LastIndex(path, "["); i >= 0 && strings.HasSuffix(path, "]") {
 		if v, ok := in.heap[path[:i]+"[*]"]; ok {
